@@ -4,6 +4,7 @@ import gen_merge
 import gen_cmpchain
 import gen_attrs
 import gen_builder
+import gen_caps
 
 GENERATORS = {
     'enums': (gen_enums.gen, 'EnumTables.v'),
@@ -11,4 +12,5 @@ GENERATORS = {
     'cmpchain': (gen_cmpchain.gen, 'CmpChain.v'),
     'attrs': (gen_attrs.gen, 'AttrRules.v'),
     'builder': (gen_builder.gen, 'BuilderConsts.v'),
+    'caps': (gen_caps.gen, 'CapRules.v'),
 }
